@@ -89,6 +89,7 @@ type interpreter struct {
 	goroutines         int32                  // atomically updated
 	p                  *Path                  // exploration state of the current path
 	initDone           map[*ssa.Package]bool
+	baseGlobals        map[*ssa.Global]*value // shared (non-zap) globals of the worker's base state
 }
 
 type deferred struct {
@@ -125,6 +126,9 @@ func (fr *frame) get(key ssa.Value) value {
 		return constValue(key)
 	case *ssa.Global:
 		if r, ok := fr.i.globals[key]; ok {
+			return r
+		}
+		if r, ok := fr.i.baseGlobals[key]; ok {
 			return r
 		}
 	}
